@@ -165,7 +165,7 @@ def run(tier, seed):
                 name, r['n_mismatch'], c[2], lib.dec(e) if not e.startswith('PY') else e, lib.dec(g)))
     for case, why in resD['oracle_fail'][:5]:
         findings.add('spelling', repr(case[2]), why)
-    n = 600 if tier == 'quick' else 12000
+    n = 600 if tier == 'quick' else 40000
     seeds = [seed * 100003 + i for i in range(n)]
     res = corr.run('c10', seeds, lambda c: 'numval -', lambda c: '~', oracle, chunk=100)
     for case, why in res['oracle_fail'][:8]:
